@@ -49,3 +49,8 @@ CASES += [
     dict(id='c16-parent-asked-first', prop='C16', file='src/library/log/log_attributes.cpp', expect='R3',
          old="   if (my_attr.empty() && (mpOuter != nullptr))\n      return mpOuter->getAttribute( attr_name);", new="   if (mpOuter != nullptr)\n      return mpOuter->getAttribute( attr_name);"),
 ]
+
+CASES += [
+    dict(id='c16-remove-drops-name', prop='C16', file='src/library/log/logging.cpp', expect='R3',
+         old="   mAttributes.removeAttribute( attr_name);", new="   mAttributes.removeAttribute();"),
+]
